@@ -305,9 +305,58 @@ def wl_history(ctx, rng):
         last = step == length
         op = 'compile_params' if last else str(rng.choice(
             ['enable_fit', 'enable_fit', 'disable_fit', 'set_mode', 'set_boundary', 'set_factor_boundary', 'set_prior',
-             'enable_derived', 'disable_derived', 'compile_params', 'update_model']))
+             'enable_derived', 'disable_derived', 'compile_params', 'update_model', 'failed_compile']))
         if op == 'update_model' and compiled == 0:
             op = 'enable_fit'
+        if op == 'failed_compile':
+            # a compile that is rejected half way (log mode on a bound <= 0 is a ValueError), repaired afterwards: the
+            # rejected compile must leave nothing behind that a later compile picks up
+            cand = [q for q in chosen if ref.p[q]['fit'] and ref.p[q]['prior'] is None]
+            if not cand:
+                op = 'enable_fit'
+            else:
+                bad = cand[int(rng.integers(0, len(cand)))]
+                others = [q for q in chosen if q != bad and ref.p[q]['fit'] and ref.p[q]['prior'] is None]
+                if others and rng.random() < 0.7:
+                    # another fitted parameter is changed as well before the rejected compile
+                    o = others[int(rng.integers(0, len(others)))]
+                    if rng.random() < 0.5 and min(ref.p[o]['bounds']) > 0:
+                        m = 'linear' if ref.p[o]['mode'] == 'log' else 'log'
+                        opt.set_mode(o, m)
+                        mine.append('set_mode')
+                        ref.p[o]['mode'] = m
+                        history.append(('set_mode', o, m))
+                    else:
+                        b = rnd_bounds(rng, ref.p[o]['fget'](), True)
+                        opt.set_boundary(o, list(b))
+                        mine.append('set_boundary')
+                        ref.p[o]['bounds'] = tuple(b)
+                        history.append(('set_boundary', o, b))
+                v = ref.p[bad]['fget']()
+                bb = (float(-abs(v) * rng.uniform(0.0, 2.0)), float(abs(v) * rng.uniform(1.5, 5.0)))
+                opt.set_boundary(bad, list(bb))
+                mine.append('set_boundary')
+                opt.set_mode(bad, 'log')
+                mine.append('set_mode')
+                history.append(('set_boundary', bad, bb))
+                history.append(('set_mode', bad, 'log'))
+                try:
+                    mine.append('compile_params')
+                    opt.compile_params()
+                    raised = None
+                except ValueError as e:
+                    raised = e
+                ctx.check('compile-rejects-log-of-nonpositive-bound', raised is not None, bounds=bb, param=bad)
+                history.append(('compile_params', 'rejected'))
+                ctx.observe('op:failed_compile')
+                # the repair: positive bounds (the mode stays log)
+                b = rnd_bounds(rng, v, True)
+                opt.set_boundary(bad, list(b))
+                mine.append('set_boundary')
+                ref.p[bad]['bounds'] = tuple(b)
+                ref.p[bad]['mode'] = 'log'
+                history.append(('set_boundary', bad, b))
+                continue
         ctx.observe('op:' + op)
         if compiled and op not in ('compile_params', 'update_model'):
             ctx.observe('changed-after-first-compile')
